@@ -28,57 +28,9 @@ GEN_THEOREMS = ["fuzzy_choice", "fuzzy_match", "fuzzy_update", "fuzzy_new", "art
 
 
 def prepare(ctx):
-    """Translator tie: regenerate lean/ArtGen/Kernels.lean from the Python source under test, rebuild the
-    equalities Gen.<Class>.<fn> = published rule (ArtGenProofs/GenSpec.lean) and audit their axioms.  A formula
-    changed in the source breaks one of these obligations for ALL inputs at once."""
-    import fcntl
-    import re
-    import subprocess
-    from .. import ktrans
-    from ..common import LEAN_DIR, REPO
-    from ..framework import ALLOWED_AXIOMS
-    names = ["Art.GenSpec." + t for t in GEN_THEOREMS]
-    ctx.extra_audit["obligations"] = len(names)
-    ctx.trusted.append("kernel translator harness/artv/ktrans.py (Python AST -> Lean; fails closed on unsupported syntax); "
-                       "covers category_choice / match_criterion / update / new_weight of FuzzyART, ART1, ART2A, HypersphereART")
-    with open(LEAN_DIR / ".gen.lock", "w") as lock:
-        fcntl.flock(lock, fcntl.LOCK_EX)
-        try:
-            ok, msg = ktrans.write(REPO)
-            ctx.log.append(f"ktrans: {msg}")
-            if not ok:
-                ctx.issue("audit", "obligation:GenSpec:translator", f"kernel translator could not translate the source: {msg}")
-                return
-            p = subprocess.run(["lake", "build", "ArtGenProofs"], cwd=LEAN_DIR, capture_output=True, text=True)
-            if p.returncode != 0:
-                errs = [l for l in (p.stdout + p.stderr).split("\n") if "error" in l][:6]
-                broken = sorted(set(re.findall(r"GenSpec\.lean:(\d+)", "\n".join(errs))))
-                ctx.issue("audit", "obligation:GenSpec:build",
-                          "generated kernels are no longer provably equal to the published rules: " + " | ".join(errs)[:600],
-                          {"generated_file": "lean/ArtGen/Kernels.lean", "errors": errs, "lines": broken})
-                return
-            src = "import ArtGenProofs.GenSpec\n" + "\n".join(f"#print axioms {n}" for n in names) + "\n"
-            tmp = LEAN_DIR / f".audit_gen_{os.getpid()}.lean"
-            tmp.write_text(src)
-            try:
-                q = subprocess.run(["lake", "env", "lean", tmp.name], cwd=LEAN_DIR, capture_output=True, text=True)
-            finally:
-                tmp.unlink(missing_ok=True)
-            flat = re.sub(r"\s+", " ", q.stdout + q.stderr)
-            for n in names:
-                m = re.search(r"'" + re.escape(n) + r"' (does not depend on any axioms|depends on axioms: \[([^\]]*)\])", flat)
-                if not m:
-                    ctx.issue("audit", "obligation:GenSpec:" + n, "theorem not checked")
-                    continue
-                ax = [] if m.group(2) is None else [a.strip() for a in m.group(2).split(",") if a.strip()]
-                ctx.extra_audit["axioms"][n] = ax
-                if all(a in ALLOWED_AXIOMS for a in ax):
-                    ctx.extra_audit["discharged"] += 1
-                else:
-                    ctx.issue("audit", "obligation:GenSpec:" + n, f"axioms {ax}")
-        finally:
-            if str(REPO) != "/repo":
-                ktrans.write("/repo")      # leave the committed generated file describing /repo
+    """Translator tie (see gen_tie.py): the kernels of FuzzyART / ART1 / ART2A / HypersphereART"""
+    from .gen_tie import gen_prepare
+    gen_prepare(ctx, GEN_THEOREMS, "category_choice / match_criterion / update / new_weight of FuzzyART, ART1, ART2A, HypersphereART")
 
 
 def close(a, q, tol=1e-12):
